@@ -192,8 +192,8 @@ def default_cells(tier):
     # that batch beyond some size)
     for i, n in enumerate((100_000,) if tier == "quick" else (100_000, 93_000, 131_072)):
         yield {"detector": "SeededBinarySegmentation", "params": {}, "seed": 25101 + i, "n": n, "p": 1, "frame": False, "kind": "ends_strong"}
-    # tens of thousands of detections on one series (segment counters in narrow integer types): a square wave of period 2 segmented
-    # by a bandwidth-1 moving window inside StatThresholdAnomaliser - every sample its own flagged segment
+    # tens of thousands of detections on one series (segment counters in narrow integer types): a square wave of period 4 segmented
+    # by a bandwidth-1 moving window inside StatThresholdAnomaliser - every pair of samples its own flagged segment (n / 2 segments)
     for n in ((70_000,) if tier == "quick" else (70_000, 33_000, 140_000)):
         yield {"detector": "StatThresholdAnomaliser", "seed": 25200, "n": n, "p": 1, "frame": False, "kind": "square_wave",
                "params": {"change_detector": {"cls": "MovingWindow", "bandwidth": 1, "threshold_scale": 0.1}, "stat_lower": -0.5, "stat_upper": 0.5}}
@@ -210,7 +210,7 @@ def check_default(case):
 
     if case.get("kind") == "square_wave":
         rng = np.random.Generator(np.random.PCG64(case["seed"]))
-        X, kind = (np.where(np.arange(case["n"]) % 2 == 0, 1.0, -1.0) + 0.01 * rng.standard_normal(case["n"])).reshape(-1, 1), "square_wave"
+        X, kind = (np.where(np.arange(case["n"]) % 4 < 2, 1.0, -1.0) + 0.01 * rng.standard_normal(case["n"])).reshape(-1, 1), "square_wave"
     else:
         X, kind = D.realistic_series(case["seed"], case["n"], case["p"], case.get("kind"))
     if case["detector"] in ("CAPA", "MVCAPA"):
